@@ -76,7 +76,22 @@ def findings():
     return "\n".join(rows)
 
 
-GEN = {"results": results, "seeded": seeded, "fixes": fixes, "findings": findings}
+def asbuilt():
+    out = []
+    for p in props:
+        pid = p["id"]
+        f = ROOT / "props" / pid / "manifest.json"
+        if not f.exists():
+            out.append(f"**{pid}** — not claimed.\n")
+            continue
+        m = json.loads(f.read_text())
+        out.append(f"**{pid} — {p['title']}**  (technique: {m.get('technique', '')})\n\n"
+                   f"*Claim.* {m['level_claimed']['text']}\n\n*Trusted / not covered.* {m['level_note']}\n\n"
+                   f"Model inventory, theorem list, mutations tried: `props/{pid}/NOTES.md`.\n")
+    return "\n".join(out)
+
+
+GEN = {"results": results, "seeded": seeded, "fixes": fixes, "findings": findings, "asbuilt": asbuilt}
 p = ROOT / "DESIGN.md"
 s = p.read_text()
 for name, fn in GEN.items():
